@@ -212,3 +212,27 @@ contract("skgenome/gary.py::GenomicArray.by_arm", params=dict(cnarr=ObjT("CopyNu
          call=lambda fn, a: list(a["cnarr"].by_arm()), props=("C03", "C10"), checks=[("partition_per_chromosome", _chk_arm)],
          modifies=("cnarr",), notes="by_arm re-casts the chromosome column to str in place (value-preserving); the frame "
                                     "check on the receiver is done in the C10 sequences contract by value")
+
+
+# ----------------------------------------------------------------------------- deductive: the one-segment-per-arm method
+from .c_genes import _WBINS       # noqa: E402
+
+contract(
+    "cnvlib/segmentation/none.py::segment_none",
+    params=dict(cnarr=_WBINS),
+    returns=ObjT("CopyNumArray", data=TabT(index="range"), meta=DictT()),
+    requires=["len(cnarr.data) >= 1",
+              "'weight' not in cnarr.data or forall(0, len(cnarr.data), lambda k: cnarr.data.weight[k] >= 0)"],
+    ensures=[
+        ("one_segment", "len(result.data) == 1"),
+        ("spans_the_arm", "result.data.chromosome[0] == cnarr.data.chromosome[0] and result.data.start[0] == cnarr.data.start[0] "
+                          "and result.data.end[0] == cnarr.data.end[len(cnarr.data) - 1]"),
+        ("probes_count_bins", "result.data.probes[0] == len(cnarr.data)"),
+        ("log2_is_weighted_mean", "not isnull(result.data.log2[0]) and val(result.data.log2[0]) == ite("
+                                  "'weight' in cnarr.data and exists(0, len(cnarr.data), lambda k: cnarr.data.weight[k] != 0), "
+                                  "sumof(Vec(len(cnarr.data), lambda k: cnarr.data.log2[k] * cnarr.data.weight[k])) / sumof(cnarr.data.weight), "
+                                  "sumof(cnarr.data.log2) / len(cnarr.data))"),
+    ],
+    props=("C03",), domain="skip",
+    canaries=[("end_of_first_bin", "cnarr.end.iat[-1]", "cnarr.end.iat[0]")],
+)
